@@ -10,8 +10,10 @@ GROUPS = [[(2, 1), (1, 2), (2, 3)], [(1, 1), (4, -1), (1, 5)], [(7, 1)], [],
           # the same sub-group (key 4, group 1) held by two different parents
           [(4, -1)], [(4, -1), (1, 1)]]
 CTX_VALS = [[], [(1, 5)], [(1, 5), (2, 6)], [(0, 0)]]                 # [(0,0)] = a nil context
+# (keys 991..993 are distinct keys cut from one string: same address, different lengths)
 CALL_ARGS = [[], [(1, 9)], [(2, 8), (1, 9), (2, 7)], [(3, -1)], [(5, 1), (3, -2), (51, 4)], [(3, 6), (3, -1), (1, 1)],
-             [(3, -5), (9, 1)], [(1, -7), (2, 2)], [(4, -5), (2, -5), (1, 1)], [(1, -8), (2, -9)], [(2, -8), (1, -9), (4, -1)]]
+             [(3, -5), (9, 1)], [(1, -7), (2, 2)], [(4, -5), (2, -5), (1, 1)], [(1, -8), (2, -9)], [(2, -8), (1, -9), (4, -1)],
+             [(993, 3), (991, 1), (992, 2), (1, 9)]]
 
 
 def config(quick):
@@ -25,7 +27,7 @@ def config(quick):
                 setter_args=sa, acts=["Set", "With", "New", "LogM", "SetAttrsR"], probe_sevs=[4], max_list=2,
                 flag_sets=[["attrsR"], ["date", "attrsR"]],
                 groups=GROUPS, ctx_vals=CTX_VALS[:2] if quick else CTX_VALS,
-                call_args=[CALL_ARGS[i] for i in (0, 2, 6, 9)] if quick else CALL_ARGS)
+                call_args=[CALL_ARGS[i] for i in (0, 2, 6, 9, 11)] if quick else CALL_ARGS)
 
 
 def config_chain(quick):
